@@ -475,7 +475,12 @@ func (g *G) genCase(stream, id string) Case {
 			}
 			data = append(data, row)
 		}
-		return g.viaEditor(one(stream, id, t, Op{Name: "table", I: []int{g.pos(n), g.width()}, Data: data, Opts: o}))
+		wd := g.width()
+		if g.chance(0.4) {
+			// a width around the minimum the content needs: surplus smaller than, equal to and just above the column count
+			wd = g.tableMinWidth(data, o != nil && o.TableBorders) + g.r.Intn(8) - 2
+		}
+		return g.viaEditor(one(stream, id, t, Op{Name: "table", I: []int{g.pos(n), wd}, Data: data, Opts: o}))
 	case "hist": // C05, C08
 		return g.history(stream, id, deg)
 	case "opts": // C17
@@ -486,6 +491,39 @@ func (g *G) genCase(stream, id string) Case {
 		return g.substCase(stream, id)
 	}
 	panic("unknown stream " + stream)
+}
+
+// tableMinWidth: the width a table of this data needs at least (content widths in clusters plus padding and borders)
+func (g *G) tableMinWidth(data [][]string, border bool) int {
+	cols := 0
+	for _, r := range data {
+		if len(r) > cols {
+			cols = len(r)
+		}
+	}
+	w := 0
+	if border {
+		w = 1
+	}
+	for j := 0; j < cols; j++ {
+		m := 0
+		for _, r := range data {
+			if j < len(r) {
+				if c := clusterCount(r[j]); c > m {
+					m = c
+				}
+			}
+		}
+		switch {
+		case border:
+			w += m + 3
+		case j+1 < cols:
+			w += m + 2
+		default:
+			w += m
+		}
+	}
+	return w
 }
 
 func (g *G) sameOr(o *rosed.Options) *rosed.Options {
